@@ -2,6 +2,7 @@ package guards
 
 import (
 	"fmt"
+	"os"
 	"go/constant"
 	"go/token"
 	"go/types"
@@ -26,15 +27,28 @@ type ResSummary struct {
 type ParamLin struct {
 	Val map[int]int64
 	Len map[int]int64
-	C   int64
+	// Proj: integer fields of struct-valued parameters (`k.size` of a value receiver), keyed "param.f1.f2"
+	Proj map[string]projCoef
+	C    int64
+}
+
+type projCoef struct {
+	param int
+	proj  []int
+	k     int64
 }
 
 func (p *ParamLin) equal(o *ParamLin) bool {
 	if p == nil || o == nil {
 		return p == o
 	}
-	if p.C != o.C || len(p.Val) != len(o.Val) || len(p.Len) != len(o.Len) {
+	if p.C != o.C || len(p.Val) != len(o.Val) || len(p.Len) != len(o.Len) || len(p.Proj) != len(o.Proj) {
 		return false
+	}
+	for k, v := range p.Proj {
+		if o.Proj[k].k != v.k {
+			return false
+		}
 	}
 	for k, v := range p.Val {
 		if o.Val[k] != v {
@@ -124,10 +138,98 @@ func (a *FuncAn) toParamLin(l Lin) *ParamLin {
 			}
 		}
 		if !found {
+			if pc, ok := a.projAtoms()[t.a]; ok {
+				if pl.Proj == nil {
+					pl.Proj = map[string]projCoef{}
+				}
+				key := fmt.Sprint(pc.param, pc.proj)
+				cur := pl.Proj[key]
+				pl.Proj[key] = projCoef{param: pc.param, proj: pc.proj, k: cur.k + t.k}
+				found = true
+			}
+		}
+		if !found {
 			return nil
 		}
 	}
 	return pl
+}
+
+// equalParamLin: an expression over the parameters that the facts at block b make equal to l. l is a single atom (the
+// length of a local value); the candidates come from the comparisons the function branches on: from `len(b) != k.size`
+// not taken,  len(b) - k.size == 0  gives  len(b) = k.size.
+func (a *FuncAn) equalParamLin(b *ssa.BasicBlock, l Lin) *ParamLin {
+	if len(l.t) != 1 || l.t[0].k != 1 {
+		return nil
+	}
+	at := l.t[0].a
+	for _, bb := range a.Fn.Blocks {
+		iff, ok := bb.Instrs[len(bb.Instrs)-1].(*ssa.If)
+		if !ok {
+			continue
+		}
+		cond := iff.Cond
+		for {
+			u, isNot := cond.(*ssa.UnOp)
+			if !isNot || u.Op != token.NOT {
+				break
+			}
+			cond = u.X
+		}
+		c, ok := cond.(*ssa.BinOp)
+		if !ok || (c.Op != token.EQL && c.Op != token.NEQ) {
+			continue
+		}
+		if _, _, isInt := a.E.intInfo(c.X.Type()); !isInt {
+			continue
+		}
+		d := Add(a.Lin(c.X), a.Lin(c.Y), -1)
+		k := d.Coef(at)
+		if k != 1 && k != -1 {
+			continue
+		}
+		if !a.Entails(b, d) || !a.Entails(b, Scale(d, -1)) {
+			continue
+		}
+		// l - k*d does not mention the atom and equals l where d == 0
+		if pl := a.toParamLin(Add(l, d, -k)); pl != nil {
+			return pl
+		}
+	}
+	return nil
+}
+
+// projAtoms: atoms that stand for an integer field (chain) of a struct-valued parameter.
+func (a *FuncAn) projAtoms() map[*Atom]projCoef {
+	if a.projAtom != nil {
+		return a.projAtom
+	}
+	a.projAtom = map[*Atom]projCoef{}
+	for _, b := range a.Fn.Blocks {
+		for _, ins := range b.Instrs {
+			fl, ok := ins.(ssa.Value)
+			if !ok {
+				continue
+			}
+			switch ins.(type) {
+			case *ssa.Field, *ssa.UnOp:
+			default:
+				continue
+			}
+			if _, _, isInt := a.E.intInfo(fl.Type()); !isInt {
+				continue
+			}
+			t, ok := paramTerm(a.Fn, fl)
+			if !ok || t.param >= 1000 || len(t.proj) == 0 {
+				continue
+			}
+			l := a.Lin(fl)
+			if len(l.t) == 1 && l.C == 0 && l.t[0].k == 1 {
+				a.projAtom[l.t[0].a] = projCoef{param: t.param, proj: t.proj}
+			}
+		}
+	}
+	return a.projAtom
 }
 
 // instantiate evaluates a callee's ParamLin at a call site of the caller a.
@@ -149,7 +251,32 @@ func (a *FuncAn) instantiate(pl *ParamLin, call *ssa.Call) (Lin, bool) {
 		}
 		r = Add(r, a.LenOf(args[i]), k)
 	}
+	for _, pc := range pl.Proj {
+		if pc.param >= len(args) {
+			return Lin{}, false
+		}
+		ct, ok := a.projectValue(args[pc.param], pc.proj)
+		if !ok {
+			return Lin{}, false
+		}
+		typ := projType(args[pc.param].Type(), pc.proj)
+		if typ == nil {
+			return Lin{}, false
+		}
+		r = Add(r, a.ctermLin(ct, typ), pc.k)
+	}
 	return r, true
+}
+
+func projType(t types.Type, proj []int) types.Type {
+	for _, fi := range proj {
+		st, ok := t.Underlying().(*types.Struct)
+		if !ok || fi >= st.NumFields() {
+			return nil
+		}
+		t = st.Field(fi).Type()
+	}
+	return t
 }
 
 // Summarize computes the result summary of a module function from its own analysis.
@@ -326,6 +453,9 @@ func (e *Engine) Summarize(f *ssa.Function) *Summary {
 			same, sameOK, nOK := true, true, 0
 			for i, r := range rets {
 				p := a.toParamLin(val(r))
+				if p == nil && seq && r.okp {
+					p = a.equalParamLin(r.b, val(r))
+				}
 				if i == 0 {
 					pl = p
 				} else if !pl.equal(p) {
@@ -418,7 +548,7 @@ func (a *FuncAn) okFacts(okBlocks func(func(*ssa.BasicBlock))) []*ParamLin {
 				if pl == nil || (len(pl.Val) == 0 && len(pl.Len) == 0) {
 					continue
 				}
-				k := fmt.Sprint(pl.Val, pl.Len, pl.C)
+				k := fmt.Sprint(pl.Val, pl.Len, pl.Proj, pl.C)
 				if seen[k] {
 					continue
 				}
@@ -541,6 +671,20 @@ func (a *FuncAn) callResult(v ssa.Value, call *ssa.Call, idx int, single bool) L
 			}
 		}
 		return l
+	}
+	// documented result ranges of a few external callees
+	if call.Call.IsInvoke() && call.Call.Method != nil {
+		switch "(" + types.TypeString(call.Call.Value.Type(), nil) + ")." + call.Call.Method.Name() {
+		case "(crypto/cipher.Block).BlockSize", "(crypto/cipher.BlockMode).BlockSize", "(hash.Hash).Size", "(hash.Hash).BlockSize":
+			// "BlockSize returns the cipher's block size": a positive constant of the implementation
+			l := a.opaque(v)
+			if at := l.t[0].a; !a.inited2[at] {
+				a.inited2[at] = true
+				one := int64(1)
+				a.bounds(at, &one, nil)
+			}
+			return l
+		}
 	}
 	sums, ok := a.E.joinSummaries(call)
 	if !ok {
@@ -826,6 +970,12 @@ func (e *Engine) fieldLowerBoundVar(v *types.Var) (int64, bool) {
 		}
 		a := e.Analyze(st.Parent())
 		if a == nil || !a.Converged || !a.Entails(st.Block(), a.Lin(st.Val)) {
+			// the storing function may establish the sign only with what its call sites guarantee
+			if e.Scope != nil && e.Scope[st.Parent()] && !e.Roots[st.Parent()] {
+				if ca := e.AnalyzeCtx(st.Parent()); ca != nil && ca.Converged && ca.Entails(st.Block(), ca.Lin(st.Val)) {
+					continue
+				}
+			}
 			pending = append(pending, st)
 		}
 	}
@@ -855,6 +1005,12 @@ func (e *Engine) fieldLowerBoundVar(v *types.Var) (int64, bool) {
 	} else if len(pending) > 0 {
 		res.has = false
 		res.witness = fmt.Sprintf("%s stores a value of unknown sign", pending[0].Parent().String())
+	}
+	if res.has && len(pending) > 0 {
+		e.invGen++ // analyses cached so far did not know this bound: callers restart (see analyzeFresh)
+	}
+	if os.Getenv("LW_FIELDDEBUG") != "" {
+		fmt.Fprintf(os.Stderr, "fieldinv %s.%s: has=%v stores=%d pending=%d witness=%s\n", v.Pkg().Name(), v.Name(), res.has, len(stores), len(pending), res.witness)
 	}
 	e.fieldInv[v] = res
 	return res.lo, res.has
